@@ -29,7 +29,8 @@ RULE = (
 ASSUMPTIONS = [
     "hashed() stringifies its input, so nulls of its argument are not nulls of the evaluated factor",
     "mean-based transforms are applied to null-free columns only (a NaN mean legitimately nulls every row); poly/bs need >= 5 distinct non-null values",
-    "raise is not combined with caller drop sets (guide and property text disagree there)",
+    "raise combined with a caller drop set is judged by the property's wording: an error iff some evaluated factor has a null in "
+    "any row, listed by the caller or not (the code does this; one sentence of the missing-data guide reads otherwise)",
     "the narwhals materializer has no index concept: index labels are asserted for the pandas materializer only",
 ]
 
@@ -86,7 +87,12 @@ def gen_case(rng: random.Random, tier: str) -> dict:
         na = rng.choice(["drop", "drop", "drop", "raise", "ignore"])
         if na == "ignore" and any(c in FORMS[f] and any(v is None for v in col_values(frame, c)) for c in ("b", "n")):
             continue  # pd.NA of nullable integer/boolean columns has no numeric representation to keep
-        caller = sorted(rng.sample(range(n), rng.randint(0, min(3, n)))) if rng.random() < 0.5 and na != "raise" else None
+        caller = sorted(rng.sample(range(n), rng.randint(0, min(3, n)))) if rng.random() < 0.5 else None
+        if na == "raise" and caller is not None and rng.random() < 0.6:
+            # the caller lists exactly (or a superset of) the rows holding nulls: by the property's wording the
+            # raise policy still errors, because an evaluated factor has a null
+            nulls = sorted({i for i in range(n) for c in FORMS[f] if col_values(frame, c)[i] is None})
+            caller = sorted(set(nulls) | (set(caller) if rng.random() < 0.5 else set()))
         mat = rng.choice(["pandas", "pandas", "pandas", "narwhals"])
         entry = rng.choice(["mm", "formula", "spec", "spec_over", "mat"])
         if mat == "narwhals" and entry == "mat":
